@@ -41,10 +41,12 @@ PROTO_ASSUME = [
 REGISTRY = {
     "C15": {
         "props_file": "Props/C15.v",
+        "props_file_extra": ["Props/C15b.v"],
         "gen": ["ext_layout"],
         "harness": [
             {"bin": "codec_diff", "model": True, "canon": ["panic_is_err"],
              "quick": ["--n", "400"], "thorough": ["--n", "12000"]},
+            {"bin": "event_codec_diff", "model": True, "quick": ["--n", "12"], "thorough": ["--n", "300"]},
         ],
         "trusted_base": [
             "translator tools/translate/ext_layout.py (struct field order/types, constants)",
@@ -132,4 +134,32 @@ REGISTRY = {
         {"bin": "storage_diff", "model": True, "stateful": True, "name": "storage_diff-mem", "quick": ["--backend", "mem", "--seqs", "25", "--len", "50"], "thorough": ["--backend", "mem", "--seqs", "600", "--len", "80"]}], "trusted_base": PROTO_TRUST, "assumptions": PROTO_ASSUME},
     "C07": {"props_file": "Props/C07.v", "gen": [], "harness": PROTO_HARNESS, "trusted_base": PROTO_TRUST, "assumptions": PROTO_ASSUME},
     "C08": {"props_file": "Props/C08.v", "gen": [], "harness": PROTO_HARNESS, "trusted_base": PROTO_TRUST, "assumptions": PROTO_ASSUME},
+    "C03": {"props_file": "Props/C03.v", "gen": [], "harness": PROTO_HARNESS, "trusted_base": PROTO_TRUST, "assumptions": PROTO_ASSUME},
+    "C05": {"props_file": "Props/C05.v", "gen": [], "harness": PROTO_HARNESS, "trusted_base": PROTO_TRUST, "assumptions": PROTO_ASSUME},
+    "C20": {"props_file": "Props/C20.v", "gen": [], "harness": PROTO_HARNESS, "trusted_base": PROTO_TRUST, "assumptions": PROTO_ASSUME},
+    "C17": {
+        "props_file": "Props/C17.v", "gen": ["media_consts"],
+        "harness": [{"bin": "media_diff", "model": True, "quick": ["--n", "150"], "thorough": ["--n", "3000"]}],
+        "trusted_base": [
+            "translator tools/translate/media_consts.py (regex + brace matching: SUPPORTED_MIME_TYPES, ESCAPE_HATCH, MAX_FILENAME_LENGTH, validate_filename refusals, get_scheme_label arms, ordered pieces of build_hkdf_context/build_aad, key suffix, fallback error arms of decrypt_from_download, group-image HKDF labels)",
+            "symbolic crypto: HKDF-SHA256 = free constructor Kdf (injective), ChaCha20-Poly1305 = free constructor Enc with the AEAD law, SHA-256 only compared for equality; exporter secrets of different epochs/groups are distinct names (standard idealisation, not verified)",
+            "media_diff establishes the real HKDF info / AAD bytes through the primitives: HKDF-Expand(stored exporter secret, rebuilt info) == derive_encryption_key and ChaCha20-Poly1305(key, nonce, rebuilt AAD, '') == encrypt_data_with_aad; assumes HKDF/Poly1305 collision resistance",
+            "modelled, not verified: image crate (format detection, EXIF stripping), OpenMLS past-epoch retention, row order of find_message_epoch_by_tag_content (model: list order)",
+        ],
+        "assumptions": [
+            "Rust &str inputs are valid UTF-8; validate_mime_type's trim() is modelled for ASCII whitespace only",
+            "exporter secrets are never pruned (true of both backends at this commit)",
+        ],
+    },
+    "C12": {"props_file": "Props/C12.v", "gen": ["sql_tables", "tx_brackets"],
+        "harness": [{"bin": "crash_diff", "model": True, "quick": [], "thorough": ["--tier", "thorough", "--variants", "2"], "timeout_thorough": 3000}],
+        "trusted_base": ["hook crates/mdk-sqlite-storage/src/verif_hooks.rs (feature verif-hooks; a tick before every with_connection / direct-lock entry and between the statements of the three brackets; process death = panic + dropping the connection + reopening the file)",
+            "translators tools/translate/tx_brackets.py and sql_tables.py (regex + brace matching)",
+            "crash_diff's projection of (file,line) tick labels to enclosing fn names, its read/write classification by name prefix, and its recovery rule per call kind (documented in the binary's header)",
+            "label semantics of Crash/StmtProg.v (one abstract cell per storage function, guards per call kind); OpenMLS and MDK decision logic are not modelled - the model explains, the enumeration on the real code decides"],
+        "assumptions": ["SQLite journaling/fsync: an autocommitted statement and a committed transaction are atomic and durable; an abandoned connection's open transaction is rolled back (simulated by unwinding + close, not by killing the process or cutting power)",
+            "a retried call gets the same input (same event / rumor); fresh randomness of a retried local call is abstracted",
+            "single process, single thread per database"]},
+    "C04": {"props_file": "Props/C04.v", "gen": [], "harness": PROTO_HARNESS, "trusted_base": PROTO_TRUST, "assumptions": PROTO_ASSUME},
+    "C11": {"props_file": "Props/C11.v", "gen": [], "harness": PROTO_HARNESS, "trusted_base": PROTO_TRUST, "assumptions": PROTO_ASSUME},
 }
